@@ -792,8 +792,14 @@ func ruleMarksAfterItems(c *Check, p *Prog, rule string) {
 			if cc == nil || cc.StaticCallee() == nil || !p.InRepo(cc.StaticCallee()) || len(cc.Args) < 2 {
 				return ""
 			}
-			mt, ok := cc.Args[1].Type().Underlying().(*types.Map)
-			if !ok {
+			// the map handed to the file writer, whichever position it has
+			var mt *types.Map
+			for _, a := range cc.Args {
+				if m, ok := a.Type().Underlying().(*types.Map); ok {
+					mt = m
+				}
+			}
+			if mt == nil {
 				return ""
 			}
 			switch e := mt.Elem().Underlying().(type) {
